@@ -52,3 +52,37 @@ Fixpoint read_all (psize total : Z) (r : rdr) (bufs : list Z) : list (Z * Z) * r
     | _ => ([(abs, cnt)], r')
     end
   end.
+
+(* ---------- the front-ends: HTTP Range requests and FUSE reads ---------- *)
+(* reading n bytes from where the reader stands with buffers of at most [cap] bytes, as io.CopyN
+   (cap = 32 KiB, under http.ServeContent) and io.ReadFull (cap = n, under the FUSE handle) do:
+   the ranges returned, until n bytes have been read or a Read reports an error *)
+Fixpoint read_n (fuel : nat) (cap psize total : Z) (r : rdr) (n : Z) : list (Z * Z) * rdr :=
+  match fuel with
+  | O => ([], r)
+  | S f =>
+    if n <=? 0 then ([], r) else
+    let '(r', abs, cnt, err) := rd_read psize total r (Z.min cap n) in
+    match err with
+    | RNone => if cnt =? 0 then ([], r')
+               else let (l, r'') := read_n f cap psize total r' (n - cnt) in ((abs, cnt) :: l, r'')
+    | _ => ([(abs, cnt)], r')
+    end
+  end.
+
+(* what http.ServeContent (net/http, specified here, not modelled) asks of the reader for one
+   Range header over a file of flen bytes: (status, first byte, number of bytes) *)
+Inductive rspec := RNoRange | RFromTo (a b : Z) | RFrom (a : Z) | RSuffix (n : Z).
+Definition rspec_ok (s : rspec) : bool :=
+  match s with RNoRange => true | RFromTo a b => (0 <=? a) && (a <=? b) | RFrom a => 0 <=? a | RSuffix n => 0 <? n end.
+Definition http_range (flen : Z) (s : rspec) : Z * Z * Z :=
+  match s with
+  | RNoRange => (200, 0, flen)
+  | RFromTo a b => if flen <=? a then (if flen =? 0 then (200, 0, 0) else (416, 0, 0))   (* an empty file: the header is ignored *)
+                   else (206, a, Z.min b (flen - 1) - a + 1)
+  | RFrom a => if flen <=? a then (if flen =? 0 then (200, 0, 0) else (416, 0, 0)) else (206, a, flen - a)
+  | RSuffix n => let k := Z.min n flen in (206, flen - k, k)
+  end.
+
+(* the FUSE handle: Seek(o) then io.ReadFull of n bytes, end of file not being an error *)
+Definition fuse_read (flen o n : Z) : Z := Z.min n (Z.max 0 (flen - o)).
